@@ -1,6 +1,8 @@
 //! jbkverif — correspondence harness: drives the real jubako library (path dependency on /repo,
 //! rebuilt from the working tree) and writes the op/answer streams the Lean model driver replays.
+mod c01;
 mod c04;
+mod cpdec;
 mod c12;
 mod c13;
 mod container;
@@ -55,6 +57,7 @@ fn main() {
     let mut ctx = Ctx::new(seed, tier, &out, only_case);
     match prop.as_str() {
         "c13" => c13::run(&mut ctx),
+        "c01" => c01::run(&mut ctx),
         "c04" => c04::run(&mut ctx),
         "c12" => c12::run(&mut ctx),
         _ => {
